@@ -89,6 +89,8 @@ var selfMutants = []selfMutant{
 	{Rule: "R-BOUNDS", File: "common.go", Old: "	for i := 3; i < n; i++ { // mimetype", New: "	for i := 3; i <= n; i++ { // mimetype", Props: []string{"C16"}, Why: "Mediatype scans one byte too far"},
 	{Rule: "R-BOUNDS", File: "common.go", Old: "		if b[i] == '%' && i+2 < len(b) {", New: "		if b[i] == '%' && i+1 < len(b) {", Props: []string{"C16"}, Why: "DecodeURL reads the second hex digit past the end"},
 	{Rule: "R-BOUNDS", File: "strconv/float.go", Old: "	} else if -22 <= exp && exp < 0 { // int / 10^k\n		return f / float64pow10[-exp], i\n	}\n	if f == 0.0 {", New: "	} else if -23 <= exp && exp < 0 { // int / 10^k\n		return f / float64pow10[-exp], i\n	}\n	if f == 0.0 {", Props: []string{"C14"}, Why: "power-of-ten table indexed at 23"},
+	{Rule: "R-EOFKIND", File: "buffer/streamlexer.go", Old: "\tvar n int\n\tfor pos-z.start >= d && z.err == nil {\n\t\tn, z.err = z.r.Read(buf[d:cap(buf)])\n\t\td += n\n\t}\n", New: "\tvar n int\n\tif pos-z.start >= d {\n\t\tn, z.err = io.ReadAtLeast(z.r, buf[d:cap(buf)], pos-z.start-d+1)\n\t\td += n\n\t}\n", Props: []string{"C13"}, Why: "StreamLexer refill through io.ReadAtLeast: a stream that ends inside the requested range leaves io.ErrUnexpectedEOF in Err()"},
+	{Rule: "R-EOFKIND", File: "buffer/streamlexer.go", Old: "\tvar n int\n\tfor pos-z.start >= d && z.err == nil {\n\t\tn, z.err = z.r.Read(buf[d:cap(buf)])\n\t\td += n\n\t}\n", New: "\tvar n int\n\tif pos-z.start >= d {\n\t\tn, z.err = io.ReadAtLeast(z.r, buf[d:cap(buf)], pos-z.start-d+1)\n\t\tif z.err == io.ErrUnexpectedEOF {\n\t\t\tz.err = io.EOF\n\t\t}\n\t\td += n\n\t}\n", Props: []string{"C13"}, Silent: true, Why: "refill through io.ReadAtLeast with io.ErrUnexpectedEOF translated to io.EOF"},
 	{Rule: "R-EOFKIND", File: "binary.go", Old: "\tfor i := 0; i < int(n); {\n\t\tm, err := r.r.Read(b[i:])\n\t\tr.pos += int64(m)\n\t\ti += m\n\t\tif err != nil {\n\t\t\treturn b[:i], err\n\t\t} else if m == 0 {\n\t\t\treturn b[:i], errors.New(\"reader: could not read all bytes\")\n\t\t}\n\t}\n\treturn b, nil\n}", New: "\tm, err := io.ReadFull(r.r, b[:n])\n\tr.pos += int64(m)\n\treturn b[:m], err\n}", Props: []string{"C19"}, Why: "io.Reader back end filled with io.ReadFull: truncation inside a value reports io.ErrUnexpectedEOF instead of io.EOF"},
 	{Rule: "R-EOFKIND", File: "binary.go", Old: "\tfor i := 0; i < int(n); {\n\t\tm, err := r.r.Read(b[i:])\n\t\tr.pos += int64(m)\n\t\ti += m\n\t\tif err != nil {\n\t\t\treturn b[:i], err\n\t\t} else if m == 0 {\n\t\t\treturn b[:i], errors.New(\"reader: could not read all bytes\")\n\t\t}\n\t}\n\treturn b, nil\n}", New: "\tm, err := io.ReadFull(r.r, b[:n])\n\tr.pos += int64(m)\n\tif err == io.ErrUnexpectedEOF {\n\t\terr = io.EOF\n\t}\n\treturn b[:m], err\n}", Props: []string{"C19"}, Silent: true, Why: "io.ReadFull with io.ErrUnexpectedEOF translated to io.EOF"},
 	{Rule: "R-OVF", File: "strconv/int.go", Old: "\t\t\tif math.MaxUint64/10 < n || math.MaxUint64-uint64(c-'0') < n*10 {\n\t\t\t\treturn 0, 0\n\t\t\t}\n\t\t\tn *= 10\n\t\t\tn += uint64(c - '0')", New: "\t\t\tif n > math.MaxUint64/10 {\n\t\t\t\treturn 0, 0\n\t\t\t}\n\t\t\tn10 := n * 10\n\t\t\tn1 := n10 + uint64(c-'0')\n\t\t\tif n1 < n10 {\n\t\t\t\treturn 0, 0\n\t\t\t}\n\t\t\tn = n1", Props: []string{"C14"}, Silent: true, Why: "ParseUint: the sum is computed first and discarded when it wrapped (n1 < n10)"},
